@@ -135,6 +135,81 @@ class AccountsStruct:
                             edges.append((f.name, other, c["key"]))
         return edges
 
+    # composite keys: account type pairs that are tied by several attribute equalities which only together identify the
+    # account (an AdaptiveFeeTier / FeeTier PDA is [config, fee_tier_index]; a pool records exactly that pair)
+    COMPOSITE = {
+        ("AdaptiveFeeTier", "Whirlpool"): [("whirlpools_config", "whirlpools_config"), ("fee_tier_index", "fee_tier_index()")],
+        ("FeeTier", "Whirlpool"): [("whirlpools_config", "whirlpools_config"), ("fee_tier_index", "fee_tier_index()")],
+    }
+
+    def strong_links(self):
+        """Edges that pin one account given the other: has_one, address = <acc>.<field>, seeds with <acc>.key(), an equality
+        between one account's key and a field of another, token::mint / token::authority = <acc>, and the composite keys above.
+        An equality between two plain attributes (`a.tick_spacing == b.tick_spacing`) ties a property, not an identity."""
+        edges = []
+        names = set(self.by_name)
+
+        def acc_of(expr):
+            m = re.match(r"^\*?&?([A-Za-z_0-9]+)(?:\.|$)", expr or "")
+            return m.group(1) if m and m.group(1) in names else None
+
+        def is_key(expr, a):
+            return re.fullmatch(r"\*?&?%s(\.key\(\)|\.key|\.to_account_info\(\)\.key\(\)|\.to_account_info\(\)\.key)?" % re.escape(a), expr or "") is not None
+        for f in self.fields:
+            weak = {}
+            for c in f.cons:
+                e = (c["expr"] or "").replace(" ", "")
+                if c["key"] == "has_one" and e in names:
+                    edges.append((f.name, e, "has_one"))
+                elif c["key"] in ("address", "token::mint", "token::authority", "associated_token::mint", "associated_token::authority", "mint::authority"):
+                    o = acc_of(e)
+                    if o and o != f.name:
+                        edges.append((f.name, o, c["key"]))
+                elif c["key"] == "seeds":
+                    for other in names:
+                        if other != f.name and re.search(r"(?<![A-Za-z0-9_])%s\.key\(\)" % re.escape(other), e):
+                            edges.append((f.name, other, "seeds"))
+                elif c["key"] == "constraint" and "==" in e and "||" not in e and "&&" not in e:
+                    l, r = e.split("==", 1)
+                    la, ra = acc_of(l), acc_of(r)
+                    if la and ra and la != ra:
+                        if is_key(l, la) or is_key(r, ra):
+                            edges.append((la, ra, "constraint"))
+                        else:
+                            weak.setdefault(frozenset((la, ra)), []).append((l, r))
+            for pair, eqs in weak.items():
+                a, b = sorted(pair)
+                for (x, y) in ((a, b), (b, a)):
+                    fx, fy = self.by_name[x], self.by_name[y]
+                    need = self.COMPOSITE.get((fx.inner, fy.inner))
+                    if need:
+                        have = set()
+                        for l, r in eqs:
+                            for (p, q) in ((l, r), (r, l)):
+                                if p.startswith(x + ".") and q.startswith(y + "."):
+                                    have.add((p[len(x) + 1:], q[len(y) + 1:]))
+                        if all(n in have for n in need):
+                            edges.append((x, y, "composite-key"))
+        return edges
+
+    def identified(self, a, b):
+        """Is account b pinned by account a (or vice versa) through a chain of strong links?"""
+        adj = {}
+        for x, y, _ in self.strong_links():
+            adj.setdefault(x, set()).add(y)
+            adj.setdefault(y, set()).add(x)
+        seen = {a}
+        work = [a]
+        while work:
+            x = work.pop()
+            if x == b:
+                return True
+            for y in adj.get(x, ()):
+                if y not in seen:
+                    seen.add(y)
+                    work.append(y)
+        return a == b
+
     def linked(self, a, b):
         """Is there a path between accounts a and b in the linkage graph?"""
         adj = {}
